@@ -366,3 +366,42 @@ def completion_closure_breaks(f):
             if n['k'] == 'BreakStmt' and n['id'] not in inner_ids:
                 out.append((lp, n))
     return out, n_loops
+
+
+def history_default_condition(f):
+    """the condition under which a history state takes its default transition: (node, conjunct descriptions).  Works on the engines
+    and on the reconstructed C.  The recommendation takes the default iff no history value is recorded."""
+    best = None
+    for n in f.walk():
+        if n['k'] != 'IfStmt':
+            continue
+        kids = [c for c in n['c'] if c is not None]
+        cond = kids[0]
+        names = [x['ref'].get('name') for x in sub(cond) if x['k'] in ('MemberExpr', 'DeclRefExpr')]
+        calls = [x.get('callee', {}).get('q', '').split('::')[-1] for x in sub(cond) if x.get('callee')]
+        hist = any(nm in ('_history', 'history') for nm in names)
+        comp = 'completion' in names
+        if hist and comp and any(c in ('intersects', 'bit_has_and') for c in calls):
+            if best is None or sum(1 for _ in sub(n)) > sum(1 for _ in sub(best)):
+                best = n
+    if best is None:
+        return None, []
+    cond = [c for c in best['c'] if c is not None][0]
+    conj = []
+    st = [strip(cond)]
+    while st:
+        x = strip(st.pop())
+        if x['k'] == 'BinaryOperator' and x.get('op') == '&&':
+            st += [x['c'][0], x['c'][1]]
+        else:
+            conj.append(x)
+    desc = []
+    for c in conj:
+        names = [x['ref'].get('name') for x in sub(c) if x['k'] in ('MemberExpr', 'DeclRefExpr')]
+        if any(nm in ('_history', 'history') for nm in names):
+            desc.append('nothing remembered')
+        elif any(nm in ('_configuration', 'config') for nm in names) and 'parent' in names:
+            desc.append('parent not active')
+        else:
+            desc.append('other')
+    return best, desc
